@@ -42,6 +42,26 @@ theorem contour_error_iff_bad_flag_sequence (C : Coord) (style : Style) (pts : L
     (contourToPath C style pts last).2 = none ↔ contourOk style (pts.map (·.flags)) last.flags = true :=
   contourToPath_ok_iff C style pts last
 
+/-- **Exact success condition for the whole outline.** `to_path` returns `Ok` iff the contour end
+points are non-decreasing, inside the point and flag arrays, and every contour's flag sequence is
+accepted (`toPathOkGo` is a function of the path style, the *number* of points, the flags and the
+contour ends only): coordinates never decide between success and error. -/
+theorem to_path_ok_iff (C : Coord) (style : Style) (pts : List (Int × Int)) (flags : List Nat)
+    (contours : List Nat) :
+    (toPath C style pts flags contours).2 = none ↔
+      toPathOkGo style pts.length flags contours 0 = true :=
+  toPathGo_ok_iff C style pts flags contours 0 0
+
+/-- **Start point.** The first pen call of a contour is the `MoveTo` to: the first point if it is
+on-curve; otherwise (off-curve quad) for FreeType style the last point if that is on-curve, else the
+midpoint of last and first; for HarfBuzz style the second point if on-curve, else the midpoint of
+first and second.  (An off-curve cubic first point, an empty contour and a HarfBuzz single off-curve
+point produce no pen call at all.) -/
+theorem contour_start_point (C : Coord) (style : Style) (pts : List Pt) (last : Pt) :
+    (contourToPath C style pts last).1.head? =
+      (startPoint C style pts last).map (fun p => Cmd.move (C.out p.x) (C.out p.y)) :=
+  contourToPath_head C style pts last
+
 /-- **Finite coordinates** (26.6 / 16.16 / i32 instantiation). If all input coordinates are `i32`s,
 every coordinate handed to the pen — also on the error path — is `v as f32` of an `i32`, an integer of
 magnitude ≤ 2³¹ before the constant power-of-two scale: never NaN or infinite.  (The wrapping
@@ -123,6 +143,32 @@ fails at a suitably misaligned base -/
 example : ftCarve ⟨10, 4, 4, 4, 4, 0, 0, 0, 0, false, true⟩ false ⟨1, 230 - 4⟩ = none := by decide
 example : requiredBufferSize ⟨10, 4, 4, 4, 4, 0, 0, 0, 0, false, true⟩ false = 230 := by decide
 example : (ftCarve ⟨10, 4, 4, 4, 4, 0, 0, 0, 0, false, true⟩ false ⟨1, 230⟩).isSome = true := by decide
+
+/-- **The layout does not depend on the buffer length.** Two successful carves at the same base
+address give the same slices, however long the buffers are. -/
+theorem ft_carve_length_independent (c : Counts) (embedded : Bool) (a l1 l2 : Nat) (s1 s2 : List Slice)
+    (h1 : a + l1 < 18446744073709551616) (h2 : a + l2 < 18446744073709551616)
+    (hs1 : ftCarve c embedded ⟨a, l1⟩ = some s1) (hs2 : ftCarve c embedded ⟨a, l2⟩ = some s2) : s1 = s2 := by
+  have hal := chain_allAlign _ 4 (ft_chain c embedded)
+  rw [carve_eq_layoutAt _ _ s1 hal h1 hs1, carve_eq_layoutAt _ _ s2 hal h2 hs2]
+
+/-- **The layout depends on the base address only through its residue modulo 4.** Moving the buffer by
+a multiple of 4 moves every non-empty slice by exactly that amount (so offsets relative to the
+buffer start are unchanged). -/
+theorem ft_carve_base_shift (c : Counts) (embedded : Bool) (a k l1 l2 : Nat) (s1 s2 : List Slice)
+    (h1 : a + l1 < 18446744073709551616) (h2 : a + 4 * k + l2 < 18446744073709551616)
+    (hs1 : ftCarve c embedded ⟨a, l1⟩ = some s1) (hs2 : ftCarve c embedded ⟨a + 4 * k, l2⟩ = some s2) :
+    s2 = s1.map (fun s => if s.count = 0 then s else { s with addr := s.addr + 4 * k }) := by
+  have hal := chain_allAlign _ 4 (ft_chain c embedded)
+  rw [carve_eq_layoutAt _ _ s1 hal h1 hs1, carve_eq_layoutAt _ _ s2 hal h2 hs2]
+  exact layoutAt_shift _ a k hal
+
+/-- a buffer sized for `Hinting::Embedded` is also large enough for the unhinted fallback that a
+disabled hinting instance takes (`OutlineGlyph::draw`, `!hinting_instance.is_enabled()`) -/
+theorem required_size_monotone_in_hinting (c : Counts) :
+    requiredBufferSize c false ≤ requiredBufferSize c true := by
+  unfold requiredBufferSize
+  cases c.hasHinting <;> cases c.hasVariations <;> simp <;> (repeat' split) <;> omega
 
 /-- **HarfBuzz-style scaler.** `HarfBuzzOutlineMemory::new` interleaves 4-aligned slices with the
 `u16`/`u8` slices, so it may pad twice (≤ 6 bytes) while `required_buffer_size` adds 4 bytes of slack.
